@@ -18,4 +18,16 @@ void h_mm_sparse_robust(void) { char nm[64];
     assert(r == 0 || r == 1);
     if (r == 0) { assert(rows >= 0 && pl == rows + 1 && ptr[0] == 0 && vl == cl && cl == ptr[pl-1]); for (int i = 0; i + 1 < pl; ++i) assert(ptr[i] <= ptr[i+1]); for (int j = 0; j < cl; ++j) assert(col[j] >= 0 && col[j] < cols); }
 }
+static void load_tokens(void) { char nm[64]; vt_open_fails = 0; vt_nlines = (int)replay_get("nlines", 0);
+    for (int l = 0; l < VT_LINES; ++l) { snprintf(nm, sizeof nm, "comment[%d]", l); vt_comment[l] = (int)replay_get(nm, 0); snprintf(nm, sizeof nm, "ntok[%d]", l); vt_ntok[l] = (int)replay_get(nm, 0);
+        for (int k = 0; k < VT_TOKS; ++k) { snprintf(nm, sizeof nm, "tok[%d][%d]", l, k); vt_tok[l][k] = replay_get(nm, 0); snprintf(nm, sizeof nm, "word[%d][%d]", l, k); vt_word[l][k] = (int)replay_get(nm, 9); } } }
+// the range read is the slice of the full read (same file)
+void h_mm_slice(void) { load_tokens(); long rb = replay_get("row_beg", 0), re = replay_get("row_end", 0);
+    long rows = -7, cols = -7, rows2 = -7, cols2 = -7; int p1[CAP], c1[CAP], v1[CAP], p2[CAP], c2[CAP], v2[CAP], pl = -7, cl = -7, vl = -7, pl2 = -7, cl2 = -7, vl2 = -7, sym = -7;
+    int r1 = k_mm_read_sparse(-1, -1, &rows, &cols, p1, CAP, c1, v1, CAP, &pl, &cl, &vl, &sym); if (r1 != 0) { printf("full read threw: nothing to compare\n"); return; }
+    if (!(0 <= rb && rb <= re && re <= rows)) { printf("row range not valid for this file: nothing to compare\n"); return; }
+    int r2 = k_mm_read_sparse(rb, re, &rows2, &cols2, p2, CAP, c2, v2, CAP, &pl2, &cl2, &vl2, &sym);
+    assert(r2 == 0); assert(rows2 == re - rb && pl2 == re - rb + 1); assert(cl2 == p1[re] - p1[rb]);
+    for (int i = 0; i <= re - rb; ++i) assert(p2[i] == p1[rb + i] - p1[rb]); for (int j = 0; j < cl2; ++j) assert(c2[j] == c1[p1[rb] + j] && v2[j] == v1[p1[rb] + j]);
+}
 int main(void) { REPLAY_FN(); printf("replay: all harness assertions hold on the real code\n"); return 0; }
